@@ -183,3 +183,8 @@ func FuzzDecode(f *testing.F) {
 		}
 	})
 }
+
+// FuzzGenDecode: the structured generator driven by Go's coverage-guided fuzzer (thorough tier).
+func FuzzGenDecode(f *testing.F) {
+	h.FuzzSub(f, h.Sub[strCase]{Prop: "C04", Name: "decode", Gen: genDecode, Check: checkDecode})
+}
